@@ -37,6 +37,20 @@ static struct call {
 static int ncalls;
 static int hr_r, hr_clear;
 
+
+/* message <<cmd, sep>> \o payload cut into fragments at the given positions;
+ * every fragment lives in its own exact-size allocation */
+#define MAXFRAG 8
+static struct iovec frag_vec[MAXFRAG];
+static uint8_t *frag_mem[MAXFRAG + 1];
+static int nfrag;
+static void frag_free(void)
+{
+	int i;
+	for (i = 0; i < nfrag; i++) free(frag_mem[i]);
+	nfrag = 0;
+}
+
 static int handler(void *arg, mpt::event *ev)
 {
 	if (ncalls < MAXCALLS) {
@@ -218,27 +232,36 @@ static void drv_step(struct cmd *c)
 	}
 	else if (!strcmp(a, "hash")) {
 		mpt::event ev;
-		struct iovec vec;
-		size_t len = 0, split = drv_uint(c, "split", 0);
+		mpt::message msg;
+		size_t len = 0, ncut = 0, total, pos = 0, k;
 		uint8_t *pay = drv_bytes(c, "payload", &len);
-		uint8_t *all, *rest;
+		long long *cuts = drv_ints(c, "cuts", &ncut);
+		uint8_t *all = (uint8_t *) malloc(len + 2);
 		int r;
-		if (split > len) split = len;
-		all = (uint8_t *) malloc(2 + split);
 		all[0] = (uint8_t) drv_uint(c, "cmd", 4);
 		all[1] = (uint8_t) drv_uint(c, "sep", 0);
-		memcpy(all + 2, pay, split);
-		rest = (uint8_t *) malloc(len - split ? len - split : 1);
-		memcpy(rest, pay + split, len - split);
-		mpt::message msg(all, 2 + split);
-		if (len - split) {
-			vec.iov_base = rest; vec.iov_len = len - split;
-			msg.cont = &vec; msg.clen = 1;
+		memcpy(all + 2, pay, len);
+		total = len + 2;
+		nfrag = 0;
+		for (k = 0; k <= ncut && nfrag < MAXFRAG; k++) {
+			size_t end = (k < ncut && nfrag < MAXFRAG - 1) ? (size_t) cuts[k] : total;
+			size_t n;
+			if (end > total) end = total;
+			if (end < pos) end = pos;
+			n = end - pos;
+			if (!n && nfrag) continue;       /* only the first fragment (base) may be empty */
+			frag_mem[nfrag] = (uint8_t *) malloc(n ? n : 1);
+			memcpy(frag_mem[nfrag], all + pos, n);
+			if (nfrag) { frag_vec[nfrag - 1].iov_base = frag_mem[nfrag]; frag_vec[nfrag - 1].iov_len = n; }
+			else { msg.base = frag_mem[0]; msg.used = n; }
+			nfrag++;
+			pos = end;
 		}
+		if (nfrag > 1) { msg.cont = frag_vec; msg.clen = (size_t) (nfrag - 1); }
 		ev.msg = &msg;
 		r = mpt::mpt_dispatch_hash(disp, &ev);
 		answer_int(c, r);
-		free(pay); free(all); free(rest);
+		free(pay); free(all); free(cuts); frag_free();
 	}
 	else {
 		drv_begin(c); j_str("ret", "unknown-action"); drv_dbg(); drv_end();
